@@ -1,8 +1,8 @@
 (* uriAddBaseUriExMm (Model/Resolve.v, add_base) against RFC 3986 section 5.2.2 (Spec/Resolve.v,
    transform): the five components of the result, as texts, are those of the RFC's target, except
    that a host-less path beginning with "//" gets "/." in front (guard_slashes). *)
-From Coq Require Import List NArith ZArith Bool Lia.
-From UP Require Import Base.Chars Model.Uri Model.Common Model.Resolve Model.Recompose Spec.Resolve
+From Coq Require Import List NArith ZArith Bool Lia String Ascii.
+From UP Require Import Base.Chars Model.Uri Model.Common Model.Resolve Model.Recompose Model.Parse Spec.Resolve
   Proofs.DotSegments.
 Import ListNotations.
 Local Open Scope N_scope.
@@ -891,3 +891,32 @@ Proof.
         destruct (pathSegs base) as [|b1 [|b2 bs]]; [exact Hf|exact Hf|].
         destruct b1; [discriminate Hfb|reflexivity].
 Qed.
+
+(* the theorems with the corner stated on objects *)
+Theorem resolve_five_obj compat rel base :
+  wf rel = true -> wf base = true -> scheme base <> None -> corner_obj compat rel base = false ->
+  fst (add_base compat rel base) = URI_SUCCESS
+  /\ five_of_uri (snd (add_base compat rel base))
+     = guard_slashes (transform (negb compat) (five_of_uri base) (five_of_uri rel)).
+Proof.
+  intros Hwr Hwb Hsb Hc. apply resolve_five; try assumption.
+  rewrite (corner_obj_spec compat rel base Hwr Hwb Hsb). exact Hc.
+Qed.
+
+Theorem resolve_text_obj compat rel base :
+  wf rel = true -> wf base = true -> scheme base <> None -> corner_obj compat rel base = false ->
+  no_ip rel = true -> no_ip base = true ->
+  to_text (snd (add_base compat rel base))
+  = recompose (guard_slashes (transform (negb compat) (five_of_uri base) (five_of_uri rel))).
+Proof.
+  intros Hwr Hwb Hsb Hc. apply resolve_text; try assumption.
+  rewrite (corner_obj_spec compat rel base Hwr Hwb Hsb). exact Hc.
+Qed.
+
+(* ---------------------------------------------------------------- examples: parsed texts *)
+Fixpoint txt (s : string) : text :=
+  match s with EmptyString => [] | String a r => N_of_ascii a :: txt r end.
+Definition uri_of (s : string) : uri :=
+  match parse (txt s) with POk u => u | PSyntax _ => empty_uri end.
+Definition resolved_text (compat : bool) (b r : string) : text :=
+  to_text (snd (add_base compat (uri_of r) (uri_of b))).
